@@ -126,8 +126,9 @@ theorem barParts_trig (cfg : Cfg) (sc : Script) (row : Nat) (ts : Int) (st : St)
   · rw [← hp, barTrace_fm_seg fireOfEv 6 fireOfEv_phase (by omega), segOf_6, hp]
     have : p.f = runFires sc ts row p.tp.1 p.b.2 := by rw [← hp]; rfl
     rw [this, runFires_fires sc ts row _ _ (by rw [htp]; exact trigPhase_ts ts st.trigs), htp]
-  · show p.a.2.trigs = _
-    rw [fa.2.1, fu.2.1, fn.2.1, fo.2.1, htp]
+  · show p.nt.2.1.trigs = _
+    have hnt : p.nt.2.1.trigs = p.a.2.trigs := by rw [← hp]; exact (runNotify_trigs sc ts row _ _ _).1
+    rw [hnt, fa.2.1, fu.2.1, fn.2.1, fo.2.1, htp]
 
 /-- **the trigger part of the bar loop is `trigRun`** (for runs that end normally) -/
 theorem runBars_trig (cfg : Cfg) (sc : Script) :
